@@ -165,7 +165,7 @@ static int g_minsz = 0, g_maxsz = 32;
 static void ph_fmt(void *u) {
     for (size_t i = 0; i < g_vals.n; i++) {
         if (!mc_mine(i)) continue;
-        if ((i & 1023) == 0 && mc_expired()) return;
+        if (mc_tick(1023)) return;
         mc_states(1);
         for (int sz = g_minsz; sz <= g_maxsz; sz++) MC_RUN(OP_FMT, H(g_vals.v[i]), I(sz));
     }
@@ -178,7 +178,7 @@ static void ph_pat(void *u) {
         int off = bits == 16 ? 16 * o : 11 * o;
         for (uint64_t p = 0; p < (1ull << bits); p++) {
             if (!mc_mine(p)) continue;
-            if ((p & 4095) == 0 && mc_expired()) return;
+            if (mc_tick(4095)) return;
             mc_states(1);
             for (int k = 0; k < 4; k++) MC_RUN(OP_FMT, H(p << off), I(sizes[k]));
         }
@@ -190,7 +190,7 @@ static void ph_parse(void *u) {
     for (int len = 0; len <= maxlen; len++)
         for (uint64_t w = 0; w < (1ull << (4 * len)); w++, idx++) {
             if (!mc_mine(idx)) continue;
-            if ((idx & 4095) == 0 && mc_expired()) return;
+            if (mc_tick(4095)) return;
             mc_states(1);
             MC_RUN(OP_PARSE, H(w), I(len), I(0));
             MC_RUN(OP_PARSE, H(w), I(len), I(1));
